@@ -103,6 +103,12 @@ fn exchange(server: &TMutex<OmahaServer>, req: http::Request<hyper::Body>, meta:
 /// `reencode`: the transport re-serialises the query the way `url::Url::query_pairs_mut()` does (an
 /// equivalent spelling: the ':' inside cup2key becomes %3A) before it reaches the server.
 fn exchange_via(server: &TMutex<OmahaServer>, req: http::Request<hyper::Body>, meta: Option<RequestMetadata>, reencode: bool) -> Result<Exchange, String> {
+    exchange_full(server, req, meta, reencode, 1)
+}
+
+/// `chunks` > 1: the request body reaches the server in that many pieces (what a large request over a real
+/// connection looks like).
+fn exchange_full(server: &TMutex<OmahaServer>, req: http::Request<hyper::Body>, meta: Option<RequestMetadata>, reencode: bool, chunks: usize) -> Result<Exchange, String> {
     let (parts, body) = req.into_parts();
     let body = block_on(hyper::body::to_bytes(body)).map(|b| b.to_vec()).unwrap_or_default();
     let req_json: Value = serde_json::from_slice(&body).unwrap_or(Value::Null);
@@ -118,7 +124,14 @@ fn exchange_via(server: &TMutex<OmahaServer>, req: http::Request<hyper::Body>, m
     for (k, v) in parts.headers.iter() {
         b = b.header(k, v);
     }
-    let r = b.body(hyper::Body::from(body.clone())).map_err(|e| e.to_string())?;
+    let wire_body = if chunks > 1 && body.len() >= chunks {
+        let step = (body.len() + chunks - 1) / chunks;
+        let pieces: Vec<Result<Vec<u8>, std::io::Error>> = body.chunks(step).map(|c| Ok(c.to_vec())).collect();
+        hyper::Body::wrap_stream(futures::stream::iter(pieces))
+    } else {
+        hyper::Body::from(body.clone())
+    };
+    let r = b.body(wire_body).map_err(|e| e.to_string())?;
     let resp = block_on(handle_request(r, server)).map_err(|e| format!("handle_request error: {}", e))?;
     let (rp, rb) = resp.into_parts();
     let rbody = block_on(hyper::body::to_bytes(rb)).map(|b| b.to_vec()).unwrap_or_default();
@@ -206,6 +219,99 @@ fn judge_document(m: &mut Mon, x: &Exchange, cfg: &HashMap<String, ResponseAndMe
     }
 }
 
+/// The server started on a real socket (default, IPv4 and IPv6 loopback addresses) advertises a URL the client
+/// can use, and one client-built update check sent to it over TCP is answered like an in-process one.
+fn started_server_probe(args: &Args, r: &mut Report) {
+    use std::io::{Read, Write};
+    let rt = tokio::runtime::Builder::new_multi_thread().worker_threads(2).enable_all().build().unwrap();
+    let mut rng = Rng::derive(args.seed, args.shard, 1717, 0);
+    for (label, addr) in [("default", None), ("ipv4-loopback", Some("127.0.0.1:0")), ("ipv6-loopback", Some("[::1]:0"))] {
+        let apps = gen_apps(&mut rng, 2);
+        let (cfg, _kinds, _tag) = cfg_for(&mut rng, &apps, false, Some(OmahaResponse::NoUpdate));
+        let server = match OmahaServerBuilder::default().responses_by_appid(cfg.clone()).build() {
+            Ok(s) => s,
+            Err(_) => continue,
+        };
+        let arc = Arc::new(TMutex::new(server));
+        let sock = addr.map(|a| a.parse::<std::net::SocketAddr>().unwrap());
+        let started = guard(|| rt.block_on(async { OmahaServer::start(arc.clone(), sock).await }));
+        let url = match started {
+            Ok(Ok((url, _task))) => url,
+            Ok(Err(e)) => {
+                r.note_once(&format!("started-server probe: cannot listen on {}: {}", label, e));
+                continue;
+            }
+            Err(p) => {
+                // the library panics when it cannot bind (e.g. no IPv6 in this sandbox): not judged
+                r.note_once(&format!("started-server probe: start() on {} did not come up: {}", label, p.msg));
+                continue;
+            }
+        };
+        r.evals(1);
+        r.hit("c17-started-server-reachable");
+        let mut rp = args.case_replay(0);
+        rp["probe"] = json!({"listen": label, "advertised_url": url});
+        let uri = url.parse::<http::Uri>();
+        let (host, port) = match &uri {
+            Ok(u) => (u.host().map(|h| h.trim_start_matches('[').trim_end_matches(']').to_string()), u.port_u16()),
+            Err(_) => (None, None),
+        };
+        if uri.is_err() || host.is_none() || port.is_none() {
+            r.violation("c17-started-server-reachable", &format!("c17-started-server-reachable url {}", label), format!("server listening on {} advertises {:?}, which is not a usable http URL", label, url), rp);
+            continue;
+        }
+        // one client-built update check over the socket
+        let w = World::new(Script::default());
+        let setup = Setup { service_url: url.clone(), apps: apps.clone(), ..Default::default() };
+        let config = make_config(&setup, &w);
+        let params = ParamsSnap::default_lib().to_lib();
+        let mut b = RequestBuilder::new(&config, &params);
+        for a in &apps {
+            let app = a.to_app();
+            b = b.add_update_check(&app).add_ping(&app);
+        }
+        let built = b.session_id(GUID::new()).request_id(GUID::new()).build(None::<&StandardCupv2Handler>);
+        let Ok((req, _)) = built else {
+            r.violation("c17-started-server-reachable", &format!("c17-started-server-reachable build {}", label), format!("the client cannot build a request for the advertised URL {:?}", url), rp);
+            continue;
+        };
+        let (parts, body) = req.into_parts();
+        let body = block_on(hyper::body::to_bytes(body)).map(|b| b.to_vec()).unwrap_or_default();
+        let answer = (|| -> Result<Vec<u8>, String> {
+            let mut sk = std::net::TcpStream::connect((host.clone().unwrap().as_str(), port.unwrap())).map_err(|e| format!("connect: {e}"))?;
+            sk.set_read_timeout(Some(std::time::Duration::from_secs(10))).ok();
+            let mut head = format!("POST {} HTTP/1.1\r\nHost: {}\r\nConnection: close\r\nContent-Length: {}\r\n", origin_form(&parts.uri), parts.uri.authority().map(|a| a.as_str()).unwrap_or(""), body.len());
+            for (k, v) in parts.headers.iter() {
+                head.push_str(&format!("{}: {}\r\n", k, v.to_str().unwrap_or("")));
+            }
+            head.push_str("\r\n");
+            sk.write_all(head.as_bytes()).map_err(|e| format!("write: {e}"))?;
+            sk.write_all(&body).map_err(|e| format!("write: {e}"))?;
+            let mut out = vec![];
+            sk.read_to_end(&mut out).map_err(|e| format!("read: {e}"))?;
+            Ok(out)
+        })();
+        match answer {
+            Err(e) => r.inconclusive.push(format!("started-server probe ({}): transport problem {}", label, e)),
+            Ok(raw) => {
+                let text = String::from_utf8_lossy(&raw).to_string();
+                let ok_status = text.starts_with("HTTP/1.1 200");
+                let payload = raw.windows(4).position(|w| w == b"\r\n\r\n").map(|p| raw[p + 4..].to_vec()).unwrap_or_default();
+                // hyper may answer chunked: take everything from the first '{' or XSSI guard to the last '}'
+                let start = payload.iter().position(|c| *c == b'{' || *c == b')').unwrap_or(0);
+                let end = payload.iter().rposition(|c| *c == b'}').map(|p| p + 1).unwrap_or(payload.len());
+                let doc = if start < end { &payload[start..end] } else { &payload[..] };
+                let parsed = parse_json_response(doc);
+                let ids: Vec<String> = parsed.as_ref().map(|p| p.apps.iter().map(|a| a.id.clone()).collect()).unwrap_or_default();
+                let want: Vec<String> = apps.iter().map(|a| a.id.clone()).collect();
+                if !ok_status || parsed.is_err() || ids != want {
+                    r.violation("c17-started-server-reachable", &format!("c17-started-server-reachable answer {}", label), format!("update check sent to {} over TCP: status line {:?}, parse {:?}, apps {:?} (expected {:?})", url, text.lines().next(), parsed.as_ref().err().map(|e| e.to_string()), ids, want), rp);
+                }
+            }
+        }
+    }
+}
+
 pub fn run(args: &Args, r: &mut Report) {
     if args.extra.get("mode").map(|s| s.as_str()) == Some("stress") || args.layer == "tsan" || args.layer == "stress" {
         return stress(args, r);
@@ -233,10 +339,14 @@ pub fn run(args: &Args, r: &mut Report) {
         "c17-state-machine-reaches-configured-outcome",
         "c17-reconfiguration-takes-effect",
         "c17-etag-override-fails-validation",
+        "c17-started-server-reachable",
     ]);
     r.assume("ping-only requests are outside the statement (the mock asserts that an app without updatecheck carries an event)");
     let miri = args.layer == "miri";
     let n = if miri { 4 } else { args.budget(16_000, 200_000) };
+    if !miri && args.only_case.is_none() {
+        started_server_probe(args, r);
+    }
     // ---- (1) + (3)
     for i in 0..n {
         if args.skip(i) {
@@ -271,6 +381,7 @@ pub fn run(args: &Args, r: &mut Report) {
         let mut cur_cfg = cfg.clone();
         for e in 0..n_ex {
             let is_uc = e % 2 == 0 || rng.bool();
+            let mixed_uc_event = is_uc && rng.chance(1, 5);
             let lib_params = params.to_lib();
             let mut b = RequestBuilder::new(&config, &lib_params);
             // an event report may name any non-empty subset of the configured apps (only those that
@@ -288,7 +399,13 @@ pub fn run(args: &Args, r: &mut Report) {
                     continue;
                 }
                 let app = a.to_app();
-                b = if is_uc { b.add_update_check(&app).add_ping(&app) } else { b.add_event(&app, Event::success(EventType::UpdateDownloadStarted)) };
+                b = if is_uc {
+                    let b2 = b.add_update_check(&app).add_ping(&app);
+                    // an update check may carry an event for the same app (e.g. a report piggy-backed on the next check)
+                    if mixed_uc_event { b2.add_event(&app, Event::success(EventType::UpdateComplete)) } else { b2 }
+                } else {
+                    b.add_event(&app, Event::success(EventType::UpdateDownloadStarted))
+                };
             }
             b = b.session_id(GUID::new()).request_id(GUID::new());
             let built = if cup { b.build(Some(&handler)) } else { b.build(None::<&StandardCupv2Handler>) };
@@ -301,7 +418,8 @@ pub fn run(args: &Args, r: &mut Report) {
             };
             let ctx = format!("case {} exchange {} ({} url={} keys={} cup={})", i, e, if is_uc { "update-check" } else { "event" }, url, keys.label, cup);
             let reencode = rng.chance(1, 5);
-            let res = guard(|| exchange_via(&server, req, meta, reencode));
+            let chunks = if rng.chance(1, 4) { 2 + rng.usize(4) } else { 1 };
+            let res = guard(|| exchange_full(&server, req, meta, reencode, chunks));
             m.hit("c17-no-panic");
             match res {
                 Err(p) => {
